@@ -353,6 +353,9 @@ func parseAux(aux []byte) ([]sam.Aux, error) {
 				if j == -1 {
 					return nil, errors.New("bam: invalid zero terminated data: no zero")
 				}
+				if j < 3 {
+					return nil, errors.New("bam: invalid zero terminated data: zero in tag")
+				}
 				if t == 'H' {
 					// The BAM value is a hex string; sam.Aux holds the bytes.
 					h := make(sam.Aux, 3+hex.DecodedLen(j-3))
